@@ -352,6 +352,9 @@ func init() {
 			d.Maps[op.Rem[0]].RemoveBatch(f.Batch(nil), nil)
 		},
 		"Unsafe.LoadEntities": func(d *Drv, op *Op, h, _ ecs.Entity) {
+			if !d.Headroom() {
+				panic(skipMisuse{}) // DumpEntities runs a query of its own
+			}
 			dump := d.U.DumpEntities()
 			d.U.LoadEntities(&dump)
 		},
@@ -440,6 +443,9 @@ func (d *Drv) staleHandle(kind int, pick int) (ecs.Entity, bool) {
 // misuse executes a KMisuse op: op.Slot = table row, op.Sub = stale kind, op.E = victim (alive) entity, op.N = pick.
 func (d *Drv) misuse(op *Op) {
 	mc := &MisuseTable[op.Slot]
+	if mc.Class == "debugguard" && !d.Headroom() {
+		panic(skipMisuse{})
+	}
 	var h, aux ecs.Entity
 	switch mc.Class {
 	case "stale":
